@@ -122,3 +122,22 @@ def spec_verify_root(trusted, untrusted) -> set:
     if len(envgen.counting_keys(untrusted, d2["pubkeys"], True)) < d2["threshold"]:
         reasons.add("E SignatureError")
     return reasons or {"OK"}
+
+
+def acceptable_outcomes(op: str, args: list):
+    """for the two verifiers where several rejection reasons can apply at once: the set of outcome classes the properties allow for
+    these arguments (None = no opinion).  Used to tell a harmless re-ordering of independent checks from a real disagreement."""
+    from . import proto
+    try:
+        if any(isinstance(a, (proto.Opaque, proto.KeyObj, bytes, bytearray, tuple)) for a in args):
+            return None
+        if op == "vroot":
+            return spec_verify_root(args[0], args[1]) if all(isinstance(a, dict) for a in args) else None
+        if op == "vdeleg":
+            role, u, t, gpg = args
+            if not isinstance(role, str) or not isinstance(gpg, (bool, int)) or isinstance(gpg, float):
+                return None
+            return spec_verify_delegation_set(role, u, t, gpg)
+    except Exception:
+        return None
+    return None
